@@ -458,6 +458,9 @@ ALPHABET = [
     ('[0,0]', [0, 0]), ('{0}', ('code', '{0}')), ('{-0}', ('code', '{-0}')), ('{1+1}', ('code', '{1+1}')), ('{1 + 1}', ('code', '{1 + 1}')),
     ('{(1+1)}', ('code', '{(1+1)}')), ('{1}', ('code', '{1}')), ('{}', ('code', '{}')), ('{"a"}', ('code', '{"a"}')), ('{"A"}', ('code', '{"A"}')),
     ('[{0}]', [('code', '{0}')]), ('[{-0}]', [('code', '{-0}')]), ('[true]', [True]), ('[1]', [1]), ('"0"', '0'),
+    # strings that differ only in bit 0x20 of a character that is not a letter ([ {, @ `, ^ ~), and letters from the end
+    # of the alphabet: ignoring case must not identify the former and must identify the latter
+    ('"[x]"', '[x]'), ('"{x}"', '{x}'), ('"a@b"', 'a@b'), ('"a`b"', 'a`b'), ('"^"', '^'), ('"~"', '~'), ('"Zz"', 'Zz'), ('"zZ"', 'zZ'),
 ]
 
 
